@@ -123,10 +123,7 @@ Print Assumptions C14_current_workers_ok.
 
 Theorem C14_current_driver_facts :
   forallb (fun b : bool => b)
-    [fva_init_sets_direction; fva_objective_zeroed_before_passes; fva_passes_min_then_max;
-     fva_chunk_is_floor_div; fva_uses_imap_unordered; fva_results_keyed_by_id; fva_serial_is_map;
-     deletion_workers_delegate; get_growth_catches_solver_error; deletion_chunk_is_floor_div;
-     deletion_uses_imap_unordered; deletion_args_is_set_of_frozensets] = true.
+    [fva_objective_zeroed_before_passes; fva_results_keyed_by_id; deletion_workers_delegate] = true.
 Proof. exact current_driver_facts. Qed.
 Print Assumptions C14_current_driver_facts.
 
